@@ -94,6 +94,14 @@ def jumpTargets : List (Nat × Instr) → List Nat
   | (_, .mk _ (.jump t _) _ _ _) :: r => t :: jumpTargets r
   | _ :: r => jumpTargets r
 
+/-- `sorted(targets_set)`: offset 0 and every jump target, ascending, without repetitions -/
+def targetsOf (ois : List (Nat × Instr)) : List Nat :=
+  (jumpTargets ois).foldl (fun acc t => insertSorted t acc) [0]
+
+/-- the second half of `bytes_to_blocks`: cut the instruction list into blocks at the target offsets and
+    rewrite every jump target from a byte offset to a block index -/
+def buildBlocks (ois : List (Nat × Instr)) : R (List (List Instr)) := group (targetsOf ois) ois []
+
 structure ArgsInput where
   argcount : Nat
   posonly : Nat
@@ -223,8 +231,7 @@ def toCodeDataGo (v : Ver) (T : OpTable) (F : FlagTable) (dec : RawCode → R Co
       | none => pure st
     let raw ← parseBytes code
     let (st, ois) ← decodeInstrs v T freevars st raw
-    let targets := (jumpTargets ois).foldl (fun acc t => insertSorted t acc) [0]
-    let blocks ← group targets ois []
+    let blocks ← buildBlocks ois
     let an ← st.names.additional strEq
     let av ← st.varnames.additional strEq
     let ac ← st.cellvars.additional strEq
